@@ -61,6 +61,23 @@ def gen(rng, tier):
     c['data'] = [[c['data'][0][0]], [c['data'][0][0]]]
     c['drop_line'] = False
     out.append(c)            # two steps of one tracer: the layout that used to raise
+    # on every run: a tracer on the native 72-layer grid opened with the default (reduced) vertical grid - a warning, not
+    # an error; and tables that hold just the one line the file needs
+    c = B.gen(rng)
+    c['nx'] = c['ny'] = 1
+    c['blocks'][0]['nz'] = 72
+    c['deep'] = True
+    for t in range(c['nt']):
+        for bi, b in enumerate(c['blocks']):
+            c['data'][t][bi] = [camx.rand_f32_bits(rng) for _ in range(b['nz'])]
+    c['drop_line'] = False
+    out.append(c)
+    c = B.gen(rng)
+    c['blocks'] = c['blocks'][:1]
+    c['data'] = [step[:1] for step in c['data']]
+    c['drop_line'] = False
+    c['short_tables'] = True
+    out.append(c)
     return out
 
 
@@ -90,6 +107,16 @@ def lean_file(c):
 
 def tables_for(c, d):
     B.tables(c, d)
+    if c.get('short_tables'):
+        # only the lines the file needs (a run with one diagnostic: one line each)
+        tids = {b['off'] + b['tid'] for b in c['blocks']}
+        cats = {b['cat'] for b in c['blocks']}
+        p = os.path.join(d, 'tracerinfo.dat')
+        lines = [ln for ln in open(p).read().split('\n') if ln.startswith('#') or (ln and int(ln[52:61]) in tids)]
+        open(p, 'w').write('\n'.join(lines) + '\n')
+        p = os.path.join(d, 'diaginfo.dat')
+        lines = [ln for ln in open(p).read().split('\n') if ln.startswith('#') or (ln and ln[9:49].strip() in cats)]
+        open(p, 'w').write('\n'.join(lines) + '\n')
     if c.get('drop_line'):
         b = c['blocks'][0]
         p = os.path.join(d, 'tracerinfo.dat')
@@ -391,7 +418,8 @@ def oracle(case, res):
         if len(rs['vars']) != len(res['scaled']['vars']):
             return 'scaled file written into an empty directory and read again: %d tracers, %d before' % (len(rs['vars']), len(res['scaled']['vars']))
     mem = res.get('mem')
-    if mem is not None and not case.get('drop_line'):
+    # (a file deeper than the vertical grid it is opened with: the coordinate variables of that grid do not fit it)
+    if mem is not None and not case.get('drop_line') and not case.get('deep'):
         if 'err' in mem:
             return 'an in-memory copy of the scaled file could not be written: ' + mem['err']
         if mem['changed']:
